@@ -5,7 +5,7 @@ PROP = {
     "coq_targets": ["theories/Lift/C05Check", "theories/Lift/WfProofs"],
     # n = random inputs per configuration (7 translators x 2 policies), on top of the structured sweeps;
     # n >= 20000 selects the full structured sweeps
-    "n": {"quick": 300, "thorough": 60000},
+    "n": {"quick": 300, "thorough": 20000},
     "theorems": ["wf_result_sound", "guards_det_sound", "exactly_one_sound", "wf_expr_constructors", "oracle_sound", "env_ok_satisfiable"],
     "rule": "inputs are a pure function of (seed, n, index): a regression corpus, then per translator x policy a structured sweep "
             "(MIPS/PPC: every major opcode x every function / extended-opcode field x boundary register and immediate fields; A64: every value of "
